@@ -57,7 +57,7 @@ ASSUMPTIONS = [
 OP_TAGS = ['Schedule', 'Unschedule', 'PresenceUp', 'PresenceDown', 'PresenceUpRaw', 'PresenceBounce', 'ServerRecord',
            'ServerDeleteApi', 'Deliver', 'Allocations', 'IdentityGroup', 'IdentityGroupDeleted', 'ServerState',
            'AppsBlacklist', 'Priority', 'Renew', 'RunningAll', 'Tick', 'PendingStartCheck', 'Restart', 'MasterCycle',
-           'UnscheduleRace', 'ServerRecreate', 'ServerReboot', 'GroupBounce']
+           'UnscheduleRace', 'ServerRecreate', 'ServerReboot', 'GroupBounce', 'ScheduleRaw', 'ServerBlackout']
 
 
 def _pd(d):
